@@ -122,13 +122,20 @@ func doCLI(mode, expr, input string) outcome {
 		args = []string{"-input", f, expr}
 	case "m":
 		args = []string{"-input", filepath.Join(cliTmp, "does-not-exist.json"), expr}
+	case "d":
+		// no -input and standard input that is NOT a pipe: the null device (what cron, exec.Command with a nil Stdin,
+		// `< /dev/null` give) — empty input, hence invalid JSON
+		args, stdin = []string{expr}, nil
+		input = ""
 	case "a0":
 		args, stdin = []string{}, []byte(input)
 	default:
 		args, stdin = []string{expr, expr}, []byte(input)
 	}
 	cmd := exec.Command(jpgoPath(), args...)
-	cmd.Stdin = bytes.NewReader(stdin)
+	if mode != "d" {
+		cmd.Stdin = bytes.NewReader(stdin)
+	}
 	var out bytes.Buffer
 	cmd.Stdout = &out
 	err := cmd.Run()
@@ -144,7 +151,7 @@ func doCLI(mode, expr, input string) outcome {
 	// implementation-level oracle: stdout is exactly the library's value, or empty with a non-zero status
 	expectOK := false
 	var want string
-	if mode == "s" || mode == "f" {
+	if mode == "s" || mode == "f" || mode == "d" {
 		var data interface{}
 		if _, cerr := jmespath.Compile(expr); cerr == nil {
 			if uerr := json.Unmarshal([]byte(input), &data); uerr == nil {
@@ -318,6 +325,10 @@ func init() {
 			n, e2 := strconv.Atoi(f[3])
 			if e1 == nil && e2 == nil && n >= 0 && n <= 64<<20 {
 				return doCLI(f[1], e, bigCLIInput(n)), true
+			}
+		case f[0] == "XD" && len(f) == 2:
+			if e, e1 := unhexField(f[1]); e1 == nil {
+				return doCLI("d", e, ""), true
 			}
 		case f[0] == "X" && len(f) == 4:
 			e, e1 := unhexField(f[2])
